@@ -133,7 +133,10 @@ class DistributedNetwork(BaseManager):
             * level = level parent advertised + 1
             * root = whatever our parent sent us initially
         """
-        username = self._session.user.name  # type: ignore[union-attr]
+        # The session can be gone (server connection lost) while distributed
+        # connections are still open, the username never differs from the
+        # configured one
+        username = self._settings.credentials.username
         if self.parent:
             # We are the branch root
             if self.parent.branch_root == username:
@@ -590,6 +593,9 @@ class DistributedNetwork(BaseManager):
     async def _on_session_initialized(self, event: SessionInitializedEvent):
         self._session = event.session
         await self._notify_server_of_parent()
+        # Children that stayed connected while there was no session could have
+        # missed changes (parent lost): advertise the current values again
+        await self._notify_children_of_branch_values()
 
     async def _on_session_destroyed(self, event: SessionDestroyedEvent):
         self._session = None
